@@ -119,13 +119,13 @@ def expr(form, refs):
 
 
 def render(prog, form1="plain", form2="arith", as_kw=True, qualify=None, join="join", paren_source=False, spell=None, cte=False,
-           inner_join=None, where_sub=None, merge_insert=True, scalar_form="plain", target_in_where=False):
+           inner_join=None, where_sub=None, merge_insert=True, scalar_form="plain", target_in_where=False, tablesample=False):
     """spell: statement-local alias -> the text it is written as (renaming of statement-local names, C08);
     cte: derived tables are written as CTEs and read without an alias; inner_join: the FROM of every derived table joins one
     more table, read under that name (inner columns are then qualified with the inner table's bare name)"""
     rels = prog["rels"]
     sp = spell or {}
-    cte = cte and cte_ok(prog)
+    cte = cte if (cte == "aliased" and any(r["k"] == "sub" for r in rels + [dict(b, k="sub") for b in prog["branch2"] if b.get("al", "none") != "none"])) else (cte and cte_ok(prog))
     if inner_join and not inner_join_ok(prog, inner_join):
         inner_join = None
     ctes = []
@@ -138,9 +138,15 @@ def render(prog, form1="plain", form2="arith", as_kw=True, qualify=None, join="j
     for i, r in enumerate(rels):
         if r["k"] == "tbl":
             t = tbl_text(r, qualify) + ((" as " if as_kw else " ") + sp.get(r["al"], r["al"]) if r["al"] != "none" else "")
+            if tablesample:
+                t += " tablesample bernoulli (10)"      # a clause that SQL puts after the alias
         else:
             body = sub_text(r, [x["c"] + (" as " + x["al"] if x["al"] != "none" else "") for x in r["inner"]])
-            if cte:
+            if cte == "aliased":
+                # the CTE has a name of its own and is read through the alias
+                ctes.append("zc%d as (%s)" % (i + 1, body))
+                t = "zc%d" % (i + 1) + (" as " if as_kw else " ") + sp.get(r["al"], r["al"])
+            elif cte:
                 ctes.append("%s as (%s)" % (sp.get(r["al"], r["al"]), body))
                 t = sp.get(r["al"], r["al"])
             else:
@@ -187,7 +193,10 @@ def render(prog, form1="plain", form2="arith", as_kw=True, qualify=None, join="j
         sel += " where 1 not in (select zc from %s)" % ("s.tgt" if prog.get("tk") else (qualify + "." if qualify else "") + "tgt")
     if prog["branch2"]:
         b = prog["branch2"][0]
-        if b.get("al", "none") != "none" and cte:
+        if b.get("al", "none") != "none" and cte == "aliased":
+            ctes.append("zc9 as (%s)" % sub_text(b, b["cols"]))
+            sel += " union all select %s from zc9 %s" % (", ".join(b["cols"]), sp.get(b["al"], b["al"]))
+        elif b.get("al", "none") != "none" and cte:
             ctes.append("%s as (%s)" % (sp.get(b["al"], b["al"]), sub_text(b, b["cols"])))
             sel += " union all select %s from %s" % (", ".join(b["cols"]), sp.get(b["al"], b["al"]))
         elif b.get("al", "none") != "none":
